@@ -179,12 +179,18 @@ func wsMessage(size int, flavours []string, wi, k, id int) *jsonrpc2.Message {
 
 // wsRun: `writers` goroutines write `each` messages through one codec; the other end reads them all.
 func wsRun(lib string, writers, each, size int) string {
+	// "a>b": the writing end uses library a, the reading end library b (the two codecs frame differently: text vs
+	// binary messages, one frame vs fragments)
+	wlib, rlib := lib, lib
+	if i := strings.Index(lib, ">"); i > 0 {
+		wlib, rlib = lib[:i], lib[i+1:]
+	}
 	var serverCodec jsonrpc2.Codec
 	ready := make(chan struct{})
 	done := make(chan struct{})
 	srv := httptest.NewServer(http.HandlerFunc(func(w http.ResponseWriter, r *http.Request) {
 		var err error
-		if lib == "gorilla" {
+		if wlib == "gorilla" {
 			serverCodec, err = (&gorilla.Upgrader{}).Upgrade(r, w, nil)
 		} else {
 			serverCodec, err = (&gobwas.Upgrader{}).Upgrade(r, w, nil)
@@ -201,7 +207,7 @@ func wsRun(lib string, writers, each, size int) string {
 	url := "ws" + strings.TrimPrefix(srv.URL, "http")
 	var client jsonrpc2.Codec
 	var err error
-	if lib == "gorilla" {
+	if rlib == "gorilla" {
 		client, err = gorilla.WebSocketDial(context.Background(), url)
 	} else {
 		client, err = gobwas.WebSocketDial(context.Background(), url)
@@ -314,6 +320,11 @@ func (v *codecWSVariant) Gen(r *rand.Rand, idx int, emit func(string)) {
 		// encoded lengths walking across 512, 1024, 1536, 2048, 3584, 4096 (decoder buffer refills, frame buffer)
 		from := []int{500, 1015, 1525, 2040, 3575, 4085}[(idx/3)%6]
 		emit(fmt.Sprintf("ws lib=%s writers=1 each=30 size=0 sweep=%d", []string{"gobwas", "gorilla"}[(idx/18)%2], from))
+		return
+	}
+	if idx%6 == 0 {
+		// the two libraries talking to each other
+		emit(fmt.Sprintf("ws lib=%s writers=1 each=%d size=%d", []string{"gobwas>gorilla", "gorilla>gobwas"}[(idx/6)%2], 5+r.Intn(30), []int{10, 200, 600, 3000}[r.Intn(4)]))
 		return
 	}
 	emit(fmt.Sprintf("ws lib=gorilla writers=%d each=%d size=%d", 1+r.Intn(8), 5+r.Intn(40), []int{10, 200, 600, 3000}[r.Intn(4)]))
